@@ -5,7 +5,7 @@ Driver of the cache model (C20): reads the request lines of `harness/inpkg/cache
 and prints one answer line per request.
 
     NEW age count fn            SET k v now ! f…      GET k now        DEL k ! f…       DELALL ! f…
-    AGE now ! f…                COUNT now ! f…        LIST             EMPTY            MINCOUNT lo hi
+    AGE now ! f…                COUNT now ! f…        LIST             EMPTY            MINCOUNT lo hi    TIMER ms
     DBEGIN t k                  DEND t r              ABEGIN t k ! f…  AEND t r
 
 `! f…` lists the keys whose cleanup reports an error during this request; `r` is 0 (callback returns nil) or
@@ -45,6 +45,7 @@ structure St where
   s : SCache
   clock : Nat := 0
   threads : List Thread := []     -- DeleteAll threads stopped in a callback
+  started : Bool := false         -- a NEW line has been seen
 
 def St.fix (st : St) : Bool := !st.asis
 
@@ -81,7 +82,10 @@ def stepLine (st : St) (line : String) : St × String :=
   match t with
   | ["NEW", age, count, fn] =>
     let c := if st.asis then mkCacheF12 (n age) (n count) (fn == "1") else mkCache (n age) (n count) (fn == "1")
-    ({ asis := st.asis, s := { c := c } }, "new")
+    ({ asis := st.asis, s := { c := c }, started := true }, "new")
+  | [] => (st, "bad-op")
+  | _ :: _ => if !st.started then (st, "bad-op") else
+  match t with
   | ["SET", k, v, now] => timed (n now) fun _ =>
     let (st', cs) := atomicOp st (.set (n k) (n v) (n now) fl); (st', answer st' cs false false)
   | ["GET", k, now] => timed (n now) fun _ =>
@@ -100,6 +104,7 @@ def stepLine (st : St) (line : String) : St × String :=
     let (st', cs) := atomicOp st (.pruneCount (n now) fl); (st', answer st' cs false false)
   | ["LIST"] => (st, "list=" ++ sp ((sortN (st.s.c.entries.map (·.key))).map toString))
   | ["EMPTY"] => (st, s!"empty={if st.s.c.entries.isEmpty then 1 else 0}")
+  | ["TIMER", _] => (st, "ok")     -- validation with the real timer, judged by a monitor of the harness only
   | ["MINCOUNT", lo, hi] => (st, s!"sum={sumMin st.asis (n lo) (n hi)}")
   | ["DBEGIN", tid, k] =>
     if (st.s.pending (n tid)).isSome then (st, "busy") else
